@@ -80,12 +80,21 @@ Invisible(o) == /\ Len(ghost) < MaxGhost
                 /\ path' = Append(path, IF o = "reserve" THEN [op |-> o, n |-> 3] ELSE [op |-> o])
                 /\ UNCHANGED <<subj, st, copied>>
 
+\* FlatStack::reserve_items(items): an announcement to the region only (the index container is not told) - a
+\* stuttering step for every announced batch, offered where the region implements ReserveItems (subj.ri)
+ReserveItems(vs) == /\ subj.ri
+                    /\ Len(ghost) < MaxGhost
+                    /\ ghost' = Append(ghost, "reserve_items")
+                    /\ path' = Append(path, [op |-> "reserve_items", vs |-> vs])
+                    /\ UNCHANGED <<subj, st, copied>>
+
 Next == /\ Len(path) < MaxOps
         /\ \/ "copy" \in Ops /\ \E vi \in DomIdx : Copy(DomAt(vi))
            \/ "extend" \in Ops /\ \E bi \in BatchIdx, hint \in {"exact", "none"} : Extend(BatchAt(bi), hint)
            \/ "from_iter" \in Ops /\ \E bi \in BatchIdx : FromIter(BatchAt(bi))
            \/ \E o \in {"clear", "with_capacity", "merge_capacity"} : o \in Ops /\ Reset(o)
            \/ \E o \in {"reserve", "reserve_regions", "clone", "clone_from", "serde"} : o \in Ops /\ Invisible(o)
+           \/ "reserve_items" \in Ops /\ \E bi \in BatchIdx : ReserveItems(BatchAt(bi))
 
 Spec == Init /\ [][Next]_vars
 
@@ -108,7 +117,7 @@ IndexBytesZero == (subj.ic = "opt" /\ subj.dense) => IndexBytes = 0
 IndexSeq == [i \in 1..Len_(st) |-> IC!ICIndex(st.ic, i - 1)]
 IndexCost == subj.ic \in {"opt", "list"} => IndexBytes = IC!DocumentedCost(subj.ic, IndexSeq, subj.isz)
 
-AppendOnly == [][path'[Len(path')].op \in {"copy", "extend", "reserve", "reserve_regions"} =>
+AppendOnly == [][path'[Len(path')].op \in {"copy", "extend", "reserve", "reserve_items", "reserve_regions"} =>
                     SubSeq(Items(st'), 1, Len(copied)) = Items(st)]_vars
 
 EmitEdge ==
